@@ -3,12 +3,12 @@ from checks import lrfamily
 
 LEVEL = "proof"
 MODULE = "LalrpopModel.Props.C04"
-THEOREMS = ['LalrpopModel.LR.GenericThms.unrecognized_token_is_last_pulled', 'LalrpopModel.LR.GenericThms.unrecognized_eof_location', 'LalrpopModel.LR.GenericThms.pulled_le', 'LalrpopModel.LR.GenericThms.no_extra_token_unless_start_reduce_under_lookahead', 'LalrpopModel.LR.accepts_iff_derives', 'LalrpopModel.LR.driver_no_panic']
+THEOREMS = ['LalrpopModel.LR.GenericThms.unrecognized_token_is_last_pulled', 'LalrpopModel.LR.GenericThms.unrecognized_eof_location', 'LalrpopModel.LR.GenericThms.pulled_le', 'LalrpopModel.LR.GenericThms.no_extra_token_unless_start_reduce_under_lookahead', 'LalrpopModel.LR.accepts_iff_derives', 'LalrpopModel.LR.driver_no_panic', 'LalrpopModel.LR.error_at_first_bad_token', 'LalrpopModel.LR.first_bad_token_unique', 'LalrpopModel.LR.eof_error', 'LalrpopModel.LR.error_not_prefix', 'LalrpopModel.LR.eof_error_not_sentence', 'LalrpopModel.LR.rejected_iff_not_sentence', 'LalrpopModel.LR.no_extra_token', 'LalrpopModel.LR.consumed_is_prefix', 'LalrpopModel.LR.prefix_determinism']
 MANIFEST = {
     "category": "proof",
     "technique": 'Lean 4 proof over the driver model (stream bookkeeping invariants) + certificates + correspondence',
-    "text": 'For arbitrary tables: the reported token is the last item pulled (never reads beyond it), everything before it was shifted, UnrecognizedEof carries the end of the last token / start location and all tokens were pulled; ExtraToken requires a start reduce under a terminal lookahead, excluded by the validator. Rejection iff not a sentence from C01. Sentence-prefix characterisation: Props/LRPrefixThms when built (audited then). Both code generators compared on every rejected input with a counting token iterator.',
-    "note": 'The viable-prefix half (`consumed prefix is a sentence prefix`) is being proved in Props/LRPrefixThms; until it is registered here it is covered by the `conts` oracle correspondence only.',
+    "text": 'For arbitrary tables: the reported token is the last item pulled (never reads beyond it), everything before it was shifted, UnrecognizedEof carries the end of the last token / start location and all tokens were pulled; ExtraToken requires a start reduce under a terminal lookahead, excluded by the validator. Rejection iff not a sentence from C01. Sentence-prefix characterisation: Props/LRPrefixThms: error_at_first_bad_token, first_bad_token_unique, eof_error, no_extra_token (under the extra executable checks V5 productive / V6 start-reduce-only-on-EOF, run per automaton as `validate2`). Both code generators compared on every rejected input with a counting token iterator.',
+    "note": 'The sentence-prefix theorems need V5/V6 (validate2), checked per automaton for reduced grammars; unproductive grammars are outside the quantifier of the property.',
 }
 
 
